@@ -135,6 +135,16 @@ CHECKS = {
         note=TB + " C10: histories stay in the regime where the periodic algorithms are defined (>= order+continuity functions) and avoid order elevation of objects with jump knots (C04/C05 findings). "
                   "The constructor's periodic test ignores the last ghost knot (noted in DESIGN.md section 10, not a violation of the statement as worded).",
         design='DESIGN.md section 8, C10'),
+    'C11': dict(
+        engine='effects',
+        technique='Coq proof of the frame / freshness / non-interference consequences of effect signatures + effects monitor establishing the signatures on the implementation (byte snapshots, shares_memory, mutation probes)',
+        text=("Theorems in Properties/C11.v (axiom-free): an operation whose effect signature writes no pre-existing cell and returns only fresh cells leaves every operand unchanged, shares nothing "
+              "with them, and later mutation of result or operand cannot change the other; an in-place operation changes only its receiver's footprint. These proofs are easy given the signatures; "
+              "the assurance that the implementation has them is the monitor: 46 non-in-place operations (clone, infix arithmetic, evaluation/derivative queries, sections incl. single points, "
+              "edges/faces/corners, split, lower_order, rebuild, make_periodic, derivative splines, measures, G2/STL/SVG writing, extrude/revolve/thicken/edge_curves/edge_surfaces/loft, "
+              "SplineModel.add) on operands of pardim 1-3, dimension 2-3, rational or not, periodic or not, and 17 in-place operations (return the receiver, touch no bystander)."),
+        note=TB + " C11: proof level applies to the consequences only; the signatures themselves are observed, not proved (numpy aliasing beyond np.shares_memory is not visible).",
+        design='DESIGN.md section 8, C11'),
 }
 
 PENDING_REASON = "not claimed in this revision: model/theorems for this property are still being built (see DESIGN.md section 8 for the plan)"
